@@ -61,6 +61,14 @@ Theorem C10_relen_coded_fields :
 Proof. exact relen_coded_fields. Qed.
 Print Assumptions C10_relen_coded_fields.
 
+(* the transcription used by the checker carries one flag per repair of /repo (ProtoEditCoded.fixes); with every flag
+   off its updateByteLen is the loop above *)
+Theorem C10_relen_coded_g_old :
+  forall b d pk lv,
+  relen_coded_g no_fixes b d pk (map (fun l => (Z.of_nat (fst l), snd l)) lv) = relen_coded b d pk lv.
+Proof. exact relen_coded_g_old. Qed.
+Print Assumptions C10_relen_coded_g_old.
+
 (* ... and it is NOT for a map-key step: the entry length stays stale (finding 1001).
    Root: map<string, M> field 3 with one entry "k" -> { 1: "a" }; path [3]["k"].1, the string grows to 130 bytes.
    addresses: 0 (entry tag), 5 (value tag), 7 (tag of field 1). *)
@@ -173,7 +181,7 @@ Proof. vm_compute. repeat split; reflexivity. Qed.
 (* 1002: inserting key "n" (value: empty message): the bytes the code writes are not what any decoder reads as that entry *)
 Example C10_finding_1002_refuted :
   let b0 := encode_msg exM in
-  match coded_set exS [77; 48] b0 [PField 1; PStrKey [110]] [0] with
+  match coded_set no_fixes exS [77; 48] b0 [PField 1; PStrKey [110]] [0] with
   | CRes 0 false b => decode_top exS [77; 48] b <> Some (exM ++ []) /\
                       (forall m', pset exS [77; 48] exM [PField 1; PStrKey [110]] (VMsg []) = Some (m', false) ->
                                   decode_top exS [77; 48] b <> Some m')
@@ -181,8 +189,8 @@ Example C10_finding_1002_refuted :
   end.
 Proof. vm_compute. split; [discriminate|]. intros m' H. inversion H. discriminate. Qed.
 
-(* 1007: an empty nested message makes the recursive Load fail *)
+(* 1007: an empty nested message made the recursive Load fail (repaired by 280f066) *)
 Example C10_finding_1007_refuted :
   let m := [(1, VMap [(KStr [107], VMsg [])])] in
-  wf_msg exS [77; 48] m = true /\ coded_load_marshal exS [77; 48] (encode_msg m) = EPlain.
-Proof. vm_compute. split; reflexivity. Qed.
+  wf_msg exS [77; 48] m = true /\ coded_load_marshal no_fixes exS [77; 48] (encode_msg m) = EPlain /\ coded_load_marshal head_fixes exS [77; 48] (encode_msg m) = EOk (encode_msg m).
+Proof. vm_compute. repeat split; reflexivity. Qed.
